@@ -21,6 +21,7 @@ import Gen.Sites
 import Proofs.CastTyped
 import Proofs.NoPanic
 import Model.Getters
+import Proofs.MapTo
 
 namespace Jl.C17
 open Jl Jl.Value Cast CastTyped
@@ -209,5 +210,58 @@ theorem importAtPath_no_panic (ext : Ext) (row : List (Bytes × Val)) (path : By
 theorem stream_no_panic (cfg : Jl.Stream.Cfg) (hT : cfg.env.T = genTables)
     (reader : List Scanner.ReadEv) (writer : List Jl.Stream.WriteEv) (s : String) :
     Jl.Stream.stream cfg reader writer ≠ .panic s := NoPanic.stream_no_panic cfg hT reader writer s
+
+/-! ### `Row.MapTo` — the one public operation that uses package reflect (`Model/MapTo`, `Proofs/MapTo`)
+
+  The target is described as reflect sees it (not a pointer / nil pointer / pointer to something that is not a
+  struct / pointer to a struct with fields of a kind, settable or not); the casters are called where the code calls
+  them and the single-value assertions `i.(int64)`, `i.(uint64)`, `i.(float64)` ARE panic branches of the model: that
+  they never fire is a theorem about the regenerated cast tables, not an assumption. -/
+
+/-- `MapTo` never panics: for every row, every target and every `Ext`, over the regenerated tables. -/
+theorem mapTo_no_panic (ext : Ext) (row : List (Bytes × Val)) (t : MapTo.Target) (s : String) :
+    MapTo.mapTo genTables ext row t ≠ .panic s :=
+  MapTo.mapTo_no_panic ext row t s
+
+/-- It returns, or the model abstains — and it abstains only on a settable field whose name starts with a rune
+    outside the ranges of `unicode.ToLower` that were ported (`lcFirst … = none`). -/
+theorem mapTo_total (ext : Ext) (row : List (Bytes × Val)) (t : MapTo.Target) :
+    (∃ t', MapTo.mapTo genTables ext row t = .ok t') ∨
+      (MapTo.mapTo genTables ext row t = .err .ext ∧
+        ∃ fs, t = .pointerToStruct fs ∧ ∃ f ∈ fs, f.settable = true ∧ MapTo.lcFirst f.name = none) :=
+  MapTo.mapTo_total ext row t
+
+/-- Anything but a non-nil pointer to a struct is left as it is (for ANY cast tables). -/
+theorem mapTo_not_struct_untouched (T : CastTables) (ext : Ext) (row : List (Bytes × Val)) (t : MapTo.Target)
+    (h : ∀ fs, t ≠ .pointerToStruct fs) : MapTo.mapTo T ext row t = .ok t :=
+  MapTo.mapTo_not_struct_untouched T ext row t h
+
+/-- A field changes only if it is settable, the row holds the key `LcFirst(name)` and the stored value's family
+    matches the field's kind; name, kind and settability never change (for ANY cast tables). -/
+theorem mapTo_only_matching_fields (T : CastTables) (ext : Ext) (row : List (Bytes × Val))
+    (fs : List MapTo.Field) (t' : MapTo.Target) (h : MapTo.mapTo T ext row (.pointerToStruct fs) = .ok t') :
+    ∃ fs', t' = .pointerToStruct fs' ∧
+      MapTo.Pointwise (fun f f' => MapTo.Kept (MapTo.Matches row f) f f') fs fs' :=
+  MapTo.mapTo_only_matching_fields T ext row fs t' h
+
+/-- What a matching signed field receives: the stored integer WRAPPED at the field's width (the silent wrap-around
+    of `reflect.SetInt` — stated as it is; it is not a panic). -/
+theorem mapTo_int_value (ext : Ext) (row : List (Bytes × Val)) (fs fs' : List MapTo.Field)
+    (h : MapTo.mapTo genTables ext row (.pointerToStruct fs) = .ok (.pointerToStruct fs'))
+    (i : Nat) (hi : i < fs.length) (hi' : i < fs'.length) (ft st : IntTy) (key : Bytes) (v : Val) (x : Int)
+    (hset : fs[i].settable = true) (hkind : fs[i].kind = .int ft) (hft : ft.signed = true)
+    (hkey : MapTo.lcFirst fs[i].name = some key) (hv : Value.lookup row key = some v)
+    (hraw : Cells.raw v = .int st x) (hst : st.signed = true) (hx : st.inRange x) :
+    fs'[i] = { fs[i] with current := .int ft (ft.wrap x) } :=
+  MapTo.mapTo_int_value ext row fs fs' h i hi hi' ft st key v x hset hkind hft hkey hv hraw hst hx
+
+/-- What one field receives does not depend on the other fields of the struct. -/
+theorem mapTo_field_independent (T : CastTables) (ext : Ext) (row : List (Bytes × Val))
+    (fs fs' gs gs' : List MapTo.Field)
+    (hf : MapTo.mapTo T ext row (.pointerToStruct fs) = .ok (.pointerToStruct fs'))
+    (hg : MapTo.mapTo T ext row (.pointerToStruct gs) = .ok (.pointerToStruct gs'))
+    (i j : Nat) (hi : i < fs.length) (hj : j < gs.length) (hi' : i < fs'.length) (hj' : j < gs'.length)
+    (same : fs[i] = gs[j]) : fs'[i] = gs'[j] :=
+  MapTo.mapTo_field_independent T ext row fs fs' gs gs' hf hg i j hi hj hi' hj' same
 
 end Jl.C17
